@@ -24,7 +24,10 @@ SPLITS = {
     "one-chunk": lambda lens: None,
     "after-handshake": lambda lens: [sum(lens[:2])],  # the device answers the hello request it received: finish completes mid-chunk
     "three-chunks": lambda lens: [sum(lens[:2]), sum(lens[:4])],  # session fully up, a request pending, then the rest
+    # the same, but the client has meanwhile asked for a graceful disconnect and is waiting for the device's answer
+    "three-chunks-disconnecting": lambda lens: [sum(lens[:2]), sum(lens[:4])],
 }
+DISCONNECTING = [False]
 
 
 def observe(s: Session, chunks: list[bytes], eof: bool = True) -> dict[str, Any]:
@@ -41,6 +44,9 @@ def observe(s: Session, chunks: list[bytes], eof: bool = True) -> dict[str, Any]
             rtype = getattr(env.pb(), "DeviceInfoResponse")
             w.spawn("req", lambda: w.conn.send_message_await_response(req, rtype, 50.0))
             w.drain()
+            if DISCONNECTING[0]:
+                w.spawn("disc", lambda: w.conn.disconnect())
+                w.drain()
             req_spawned = True
     if eof and not s.sock.closed:
         w.io_eof(s.sock)
@@ -153,6 +159,7 @@ def handshake_deviations(s_frames: list[bytes]) -> list[tuple[str, list[bytes]]]
 def case_job(args: tuple[Any, ...]) -> dict[str, Any]:
     env.load()
     kind = args[0]
+    DISCONNECTING[0] = False
     out: dict[str, Any] = {"evals": 0, "viol": [], "failing": 0, "classes": set()}
 
     def add(key: str, clause: str, **kw: Any) -> None:
@@ -176,6 +183,7 @@ def case_job(args: tuple[Any, ...]) -> dict[str, Any]:
                 stream = dict(corruptions(s.frames, tier))[desc] if False else _apply(desc, s.frames)
                 split = None
                 split = SPLITS[split_mode](lens)
+                DISCONNECTING[0] = split_mode.endswith("disconnecting")
                 out["evals"] += 1
                 ref = reference_receive(stream, s.rx_key, EXPECTED, s.frames[1][3:])
                 if ref["failure"]:
@@ -304,7 +312,8 @@ def case_job(args: tuple[Any, ...]) -> dict[str, Any]:
         keys += [("not-base64", "!!!! not base64 !!!!", False), ("wrong-padding", "QUJD=", False), ("bad-length-1", "A", False),
                  ("31-bytes-unpadded", base64.b64encode(bytes(31)).decode().rstrip("="), False),
                  ("urlsafe-32", base64.urlsafe_b64encode(b"\xff" * 32).decode(), None)]
-        for label, key, valid in keys:
+        # every key string is tried three times in the same process (a retrying client): the verdict may not depend on history
+        for label, key, valid in [k for k in keys for _ in range(3)]:
             w = ConnWorld(noise=True)
             try:
                 w.params.noise_psk = key
@@ -370,7 +379,7 @@ def run(tier: str, seed: int) -> Result:
     res = Result("C04", "fault_enumeration")
     parts = 32
     jobs: list[tuple[Any, ...]] = []
-    for sm in ("one-chunk", "after-handshake", "three-chunks"):
+    for sm in ("one-chunk", "after-handshake", "three-chunks", "three-chunks-disconnecting"):
         jobs += [("corrupt", tier, p, parts, sm) for p in range(parts)]
     jobs += [("handshake",), ("name",), ("wrong-psk",), ("framing",), ("keys",)]
     ctx = mp.get_context("fork")
@@ -414,6 +423,7 @@ def replay(rp: dict[str, Any]) -> bool:
         try:
             lens = [len(f) for f in s.frames]
             split = SPLITS[d["split_mode"]](lens)
+            DISCONNECTING[0] = d["split_mode"].endswith("disconnecting")
             v = judge(s, _apply(desc, s.frames), split, EXPECTED)
         finally:
             s.close()
